@@ -604,7 +604,7 @@ impl State {
     }
 
     fn apply_load_coherence(&mut self, threads: &mut thread::Set, index: usize) {
-        let before = self.stores[index].modification_order;
+        let mut modification_order = self.stores[index].modification_order;
 
         for i in 0..self.stores.len() {
             // Skip if the is current.
@@ -614,21 +614,32 @@ impl State {
 
             // READ-READ coherence
             if self.stores[i].first_seen.is_seen_by_current(threads) {
-                let mo = self.stores[i].modification_order;
-                self.stores[index].modification_order.join(&mo);
+                modification_order.join(&self.stores[i].modification_order);
             }
 
             // WRITE-READ coherence
             if self.stores[i].happens_before < threads.active().causality {
-                let mo = self.stores[i].modification_order;
-                self.stores[index].modification_order.join(&mo);
+                modification_order.join(&self.stores[i].modification_order);
             }
         }
 
-        // The store that is read has just been ordered after every store the
-        // thread had already seen, which moves it later in the modification
-        // order. The stores that were ordered after it must stay ordered
-        // after it: the modification order only ever gains edges.
+        // The store that is read is ordered after every store the thread had
+        // already seen.
+        self.raise_modification_order(index, &modification_order);
+
+        // RMW ATOMICITY: the new edges must not put a store between a
+        // read-modify-write and the store it read.
+        self.close_rmw_atomicity();
+    }
+
+    /// Moves a store later in the modification order. The stores that were
+    /// ordered after it stay ordered after it: the modification order only
+    /// ever gains edges.
+    fn raise_modification_order(&mut self, index: usize, to: &VersionVec) {
+        let before = self.stores[index].modification_order;
+
+        self.stores[index].modification_order.join(to);
+
         let after = self.stores[index].modification_order;
 
         if after != before {
@@ -636,6 +647,51 @@ impl State {
                 if index != i && before < self.stores[i].modification_order {
                     self.stores[i].modification_order.join(&after);
                 }
+            }
+        }
+    }
+
+    /// The store of a read-modify-write immediately follows the store it
+    /// read (its source): whatever is ordered after the source is ordered
+    /// after the read-modify-write, and whatever is ordered before the
+    /// read-modify-write is ordered before its source.
+    fn close_rmw_atomicity(&mut self) {
+        // Every round that changes something moves a store later; the bound
+        // is never reached.
+        for _ in 0..4 * self.stores.len() {
+            let mut changed = false;
+
+            // The slots that hold a store (the history fills up in order).
+            let live = cmp::min(self.cnt as usize, self.stores.len());
+
+            for rmw in 0..live {
+                let source = match self.stores[rmw].rmw_source {
+                    // The source is still in the history.
+                    Some((slot, id)) if slot != rmw && self.stores[slot].id == id => slot,
+                    _ => continue,
+                };
+
+                for i in 0..live {
+                    if i == rmw || i == source {
+                        continue;
+                    }
+
+                    let mo_source = self.stores[source].modification_order;
+                    let mo_rmw = self.stores[rmw].modification_order;
+                    let mo = self.stores[i].modification_order;
+
+                    if mo_source <= mo && !(mo_rmw <= mo) {
+                        self.raise_modification_order(i, &mo_rmw);
+                        changed = true;
+                    } else if mo <= mo_rmw && !(mo <= mo_source) {
+                        self.raise_modification_order(source, &mo);
+                        changed = true;
+                    }
+                }
+            }
+
+            if !changed {
+                break;
             }
         }
     }
